@@ -267,12 +267,21 @@ def parse_inputs(rng, e: ESpec, info, tier, max_full=None):
             out.append((' ' + s, role + '-ws'))
             out.append((s + ' ', role + '-ws'))
             out.append((s + '\n', role + '-ws'))
+            # the 0x20-neighbours of the ASCII punctuation between the letter ranges: `[ \\ ] ^ _ `` <-> `{ | } ~ DEL @`
+            punct = ''.join(chr(ord(ch) ^ 0x20) if ch in '[\\]^_`{|}~@\x7f' else ch for ch in s)
+            if punct != s:
+                out.append((punct, role + '-punct-fold'))
             if e.prefix:
                 out.append((e.prefix + s, role + '-prefixed'))
+                out.append((e.prefix + s + 'x', role + '-prefixed-unknown'))
+                out.append((e.prefix + e.prefix + s, role + '-prefixed-twice'))
         # the un-cased identifier and every restyling of it when an explicit spelling exists
         if v.ser or v.ts is not None or e.style:
             out.append((v.ident, role + '-rawident'))
     out.append(('', 'empty'))
+    if e.prefix:
+        out.append((e.prefix, 'prefix-alone'))
+        out.append((e.prefix + 'nope', 'prefixed-unknown'))
     for _ in range(6 if tier == 'quick' else 40):
         out.append((textgen.random_ascii(rng), 'random-ascii'))
         out.append((textgen.random_unicode(rng), 'random-unicode'))
